@@ -69,9 +69,22 @@ def tree_key(features="", repo=None):
     return h.hexdigest()[:24]
 
 
-def _run_driver(out_json, features, repo=None):
+def lane_target(lane):
+    """a private copy of the warm dependency build for a parallel lane of the self-test (cargo locks a target directory)"""
+    base = os.path.join(CACHE, "target")
+    t = os.path.join(CACHE, "target-lane%d" % lane)
+    if not os.path.isdir(t) and os.path.isdir(base):
+        subprocess.run(["cp", "-a", base, t + ".tmp%d" % os.getpid()])
+        try:
+            os.rename(t + ".tmp%d" % os.getpid(), t)
+        except OSError:
+            subprocess.run(["rm", "-rf", t + ".tmp%d" % os.getpid()])
+    return t
+
+
+def _run_driver(out_json, features, repo=None, target=None):
     repo = repo or REPO
-    target = os.path.join(CACHE, "target")
+    target = target or os.path.join(CACHE, "target")
     os.makedirs(target, exist_ok=True)
     # defeat cargo's freshness cache for the member crate: the wrapper must run
     for fp in glob.glob(os.path.join(target, "debug", ".fingerprint", "discret-*")):
@@ -128,7 +141,7 @@ def scramble_locals(data):
         walk(b["vars"])
 
 
-def load(features="", repo=None, quiet=False):
+def load(features="", repo=None, quiet=False, lane=None):
     """Return (facts dict, info dict).  Runs the driver when the tree changed."""
     t0 = time.time()
     if not os.path.exists(DRIVER):
@@ -137,14 +150,14 @@ def load(features="", repo=None, quiet=False):
     key = tree_key(features, repo)
     base = os.path.join(CACHE, "facts", key)
     pk = base + ".pickle"
-    lockp = os.path.join(CACHE, "facts", "lock")
+    lockp = os.path.join(CACHE, "facts", "lock" if lane is None else "lock-lane%d" % lane)
     ran = False
     with open(lockp, "w") as lock:
         fcntl.flock(lock, fcntl.LOCK_EX)
         try:
             if not os.path.exists(pk):
                 js = base + ".json"
-                _run_driver(js, features, repo)
+                _run_driver(js, features, repo, lane_target(lane) if lane is not None else None)
                 with open(js) as fh:
                     data = json.load(fh)
                 if data.get("crate") != "discret" or not data.get("bodies"):
@@ -156,15 +169,16 @@ def load(features="", repo=None, quiet=False):
                 os.rename(pk + ".tmp", pk)
                 os.unlink(js)
                 ran = True
-                # keep the cache small: drop all but the 6 most recent fact files
+                # keep the cache small: drop all but the 24 most recent fact files
                 olds = sorted(glob.glob(os.path.join(CACHE, "facts", "*.pickle")), key=os.path.getmtime)
-                for o in olds[:-6]:
+                for o in olds[:-24]:
                     os.unlink(o)
+            # read under the lock: a parallel lane pruning the cache must not remove the file in between
+            with open(pk, "rb") as fh:
+                data = pickle.load(fh)
+            os.utime(pk)
         finally:
             fcntl.flock(lock, fcntl.LOCK_UN)
-    with open(pk, "rb") as fh:
-        data = pickle.load(fh)
-    os.utime(pk)
     data["repo_root"] = repo or REPO      # rules that read non-Rust sources (grammars) or attribute text read them from the analysed tree
     if os.environ.get("DISCRET_SCRAMBLE_LOCALS"):
         scramble_locals(data)
